@@ -224,7 +224,10 @@ func (b *Backend) Advance(d int64) {
 		return
 	}
 	if b.Real {
+		// real seconds: the etcd server expires the leases itself; the harness
+		// clock only serves the remaining-TTL column of the raw dump
 		time.Sleep(time.Duration(d) * time.Second)
+		b.vnow += d
 		return
 	}
 	b.vnow += d
